@@ -88,6 +88,35 @@ theorem frames_le_answered (cfg : Cfg) (ctx : Units) (evs : List (Ev Req)) :
           simp only [List.length_cons]
           exact Nat.succ_le_of_lt (Nat.lt_of_le_of_lt this (by omega))
 
+/-- … exactly one per answered delivery when nothing went wrong in the receive call (no undecodable frame, every
+    response could be framed): the count is exact, not just bounded -/
+theorem frames_eq_answered (cfg : Cfg) (ctx : Units) (evs : List (Ev Req))
+    (hok : (handleEvents cfg ctx evs).2.2 = none) :
+    (handleEvents cfg ctx evs).2.1.length = answered cfg ctx evs := by
+  induction evs generalizing ctx with
+  | nil => simp [handleEvents, answered]
+  | cons e rest ih =>
+    cases e with
+    | raised err => simp [handleEvents] at hok
+    | deliver r uid tid pid =>
+      simp only [handleEvents, answered] at hok ⊢
+      rcases hcb : callback cfg ctx r uid with ⟨c1, c2⟩
+      simp only [hcb] at hok ⊢
+      cases c2 with
+      | none =>
+        simp only [] at hok ⊢
+        simpa using ih c1 hok
+      | some rp =>
+        simp only [] at hok ⊢
+        cases hf : frameResp cfg rp uid tid pid with
+        | error e => simp [hf] at hok
+        | ok f =>
+          simp only [hf] at hok ⊢
+          simp only [List.length_cons, Option.isSome_some, if_true]
+          have := ih c1 hok
+          show (handleEvents cfg c1 rest).snd.fst.length + 1 = 1 + answered cfg c1 rest
+          rw [this, Nat.add_comm]
+
 /-- it never emits bytes that are not a response to a received request -/
 theorem no_spontaneous_output (cfg : Cfg) (ctx : Units) (evs : List (Ev Req))
     (h : ∀ e ∈ evs, ∀ r u t p, e ≠ .deliver r u t p) : (handleEvents cfg ctx evs).2.1 = [] := by
